@@ -6,7 +6,8 @@
    CreateHalfedges / DedupePropVerts / SortGeometry on the import side (the
    harness compares the real export of the real re-import field by field). *)
 From Coq Require Import ZArith List Bool.
-From MV Require Import Codec.MeshGLDefs Codec.MeshGLModel.
+From MV Require Import Codec.IngestDefs Codec.ExportIngestDefs Codec.ExportIngestModel Codec.MeshGLDefs Codec.MeshGLModel.
+From MV Require Gen.Ladder.
 Import ListNotations.
 Local Open Scope Z_scope.
 
@@ -29,7 +30,7 @@ Print Assumptions merge_vectors_restore.
    faceID), in export order, are the same after export -> import -> export, for
    every non-original Impl whose relation agrees with its triRefs and whose
    coplanarIDs are non-negative, and every start ID handed out by ReserveIDs.
-   (Runs without triangles are not modelled.) *)
+   (Runs without triangles: see runs_roundtrip_with_empty_runs.) *)
 Theorem runs_roundtrip :
   forall (s : impl) (startID : Z),
     isOriginal s = false ->
@@ -44,6 +45,49 @@ Proof.
     conj H (eq_trans (eq_trans (pinned_vs_fixed_attrs (reimport startID s)) H) (eq_sym (pinned_vs_fixed_attrs s)))).
 Qed.
 Print Assumptions runs_roundtrip.
+
+(* The same with the trailing EMPTY runs the exporter appends for every relation
+   entry whose mesh contributed no triangle (`extra`, ascending meshIDs): after
+   export -> import -> export the non-empty runs' per-triangle attributes are
+   unchanged AND the empty runs come back with the same (originalID, transform,
+   flags), in the same order. *)
+Theorem runs_roundtrip_with_empty_runs :
+  forall (s : impl) (startID : Z) (extra : list Z),
+    isOriginal s = false ->
+    (forall t, In t (tris s) -> rOrig (relation s (meshID t)) = origID t) ->
+    (forall t, In t (tris s) -> 0 <= coplanarID t) ->
+    let srt := sorted_tris s in
+    let rl' := reimport_relation_e (relation s) startID srt extra in
+    map (attr_of rl') (isort (import_tris (relation s) startID (-1) (-1) 0 srt)) = map (attr_of (relation s)) srt /\
+    export_empty_attrs rl' (reimport_extra startID srt extra) = export_empty_attrs (relation s) extra.
+Proof. exact runs_roundtrip_empty_model. Qed.
+Print Assumptions runs_roundtrip_with_empty_runs.
+
+(* export_tables_accepted (ties the C08 export model to the C09 ingest ladder):
+   for every rung table t without a rung that rejects equal neighbours in
+   runIndex (the Boolean accepts_export_tables, evaluated by the check on the
+   table regenerated from src/impl.h), every sorted triangle list with
+   non-negative meshIDs, every number k of trailing empty runs, with or without
+   runTransform: no run-table rung of t (TransformWrongLength, the two
+   RunIndexWrongLength rungs) fires on the record the exporter emits. *)
+Theorem export_tables_accepted :
+  forall (t : list item) (srt : list itri) (k : nat) (withTransform : bool) (m : meshgl) (r : rung) (e : error),
+    accepts_export_tables t = true ->
+    srt <> [] -> (forall x, In x srt -> 0 <= meshID x) ->
+    exported_runs srt k withTransform m ->
+    In (IRung r e) t -> is_run_rung r = true ->
+    cond r m (st_runs m) = false.
+Proof. exact tables_accepted. Qed.
+Print Assumptions export_tables_accepted.
+
+(* ... and a rung demanding strictly increasing runIndex rejects the export of
+   any result with an operand that contributed no triangle: table {0, 6, 6}. *)
+Theorem strict_run_rung_rejects_export :
+  exported_runs w_srt 1 true w_empty_run_mesh /\
+  cond RRunIndexShape w_empty_run_mesh (st_runs w_empty_run_mesh) = false /\
+  cond RRunIndexShapeStrict w_empty_run_mesh (st_runs w_empty_run_mesh) = true.
+Proof. exact strict_rejects_empty_run. Qed.
+Print Assumptions strict_run_rung_rejects_export.
 
 (* The tangent statement is FALSE for the pinned exporter: it sorts triangles
    into runs (triNew2Old) but copies halfedgeTangent_ in internal order.
